@@ -407,6 +407,28 @@ func (rs *runState) judge(prop string, clientFinished bool, out *core.Outcome) {
 		}
 	}
 
+	// ------------------------------------------------ the listener hands out inbound connections only
+	rs.mu.Lock()
+	extraAccepts := append([]time.Duration(nil), rs.extraAccepts...)
+	rs.mu.Unlock()
+	if strict && len(extraAccepts) > 0 {
+		inbound := 0
+		for _, mc := range snap.Conns {
+			if mc.Inbound {
+				inbound++
+			}
+		}
+		accepted := len(extraAccepts)
+		for _, cr := range conns {
+			if cr.Via == "accept" {
+				accepted++
+			}
+		}
+		if accepted > inbound {
+			sim.Violate(prop, "accept", "listener-delivered-a-connection-nobody-made/"+tag, "Accept returned %d connections, the TNC announced %d inbound connection(s) (further ones were handed out at %v)", accepted, inbound, extraAccepts)
+		}
+	}
+
 	// ------------------------------------------------ Flush
 	outAt := func(at time.Duration) int {
 		v := 0
